@@ -163,6 +163,28 @@ TZS = ['UTC', 'JST-9', 'EST5', 'IST-5:30', 'NST3:30', 'CET-1CEST,M3.5.0,M10.5.0/
 _TZ = [None]
 
 
+def posix_tz_abbrs(tz):
+    """'CET-1CEST,M3.5.0,M10.5.0/3' -> {'CET': 3600, 'CEST': 7200} (seconds EAST of UTC; POSIX signs are west-positive)."""
+    import re
+    m = re.match(r'^([A-Za-z]{3,})([+-]?[0-9]{1,2}(?::[0-9]{2})?)?(?:([A-Za-z]{3,})([+-]?[0-9]{1,2}(?::[0-9]{2})?)?)?', tz.split(',')[0])
+
+    def secs(txt):
+        sign = -1 if txt.startswith('-') else 1
+        hh, _, mm = txt.lstrip('+-').partition(':')
+        return sign * (int(hh) * 3600 + int(mm or 0) * 60)
+    std_west = secs(m.group(2)) if m.group(2) else 0
+    out = {m.group(1).upper(): -std_west}
+    if m.group(3):
+        out[m.group(3).upper()] = -(secs(m.group(4)) if m.group(4) else std_west - 3600)
+    return out
+
+
+ZONE_OFFSETS = {}
+for _z in TZS:
+    ZONE_OFFSETS.update(posix_tz_abbrs(_z))
+NOW_YEAR = time.gmtime().tm_year        # only for the 50-year rule of two-digit years (RFC 9110 5.6.7)
+
+
 def set_tz(tz):
     if tz is not None and _TZ[0] != tz:
         os.environ['TZ'] = tz
@@ -501,11 +523,22 @@ def judge(rec, world, case, raw, res, opens):
             rec.count('mon.304')
         return out
     if status == 304:
-        if ims_lenient and body == b'':
-            rec.count('mon.304_lenient')
-        else:
+        # only values outside the fixed class get here with a 304; whatever tolerance the recipient shows,
+        # the date it acts on must be an instant the value can be taken to state, and the file must not be newer
+        readings = M.ims_readings(ims_v, ZONE_OFFSETS, NOW_YEAR)
+        if body != b'':
+            bad('304-with-body', file=_rel(world, fpath))
+        elif not ims_lenient:
             bad('304-but-modified', file=_rel(world, fpath), mtime=mtime)
+        elif not readings:
+            bad('304-for-unreadable-date', file=_rel(world, fpath), mtime=mtime)
+        elif not any(M.not_modified(mtime, r) for r in readings):
+            bad('304-but-modified', file=_rel(world, fpath), mtime=mtime, readings=sorted(readings))
+        else:
+            rec.count('mon.304_lenient')
         return out
+    if ims_lenient and M.ims_readings(ims_v, ZONE_OFFSETS, NOW_YEAR):
+        rec.count('mon.ims_lenient_readable_not_304')
     if ims_epoch is not None:
         rec.count('mon.ims_modified')
 
@@ -836,18 +869,91 @@ def ims_values(mtime):
     return vals
 
 
+_MON = ['Jan', 'Feb', 'Mar', 'Apr', 'May', 'Jun', 'Jul', 'Aug', 'Sep', 'Oct', 'Nov', 'Dec']
+_DAY = ['Monday', 'Tuesday', 'Wednesday', 'Thursday', 'Friday', 'Saturday', 'Sunday']
+
+
+def _wall(epoch):
+    return time.gmtime(epoch)
+
+
+def fmt_imf(epoch, zone):
+    g = _wall(epoch)
+    return '%s, %02d %s %04d %02d:%02d:%02d%s' % (_DAY[g.tm_wday][:3], g.tm_mday, _MON[g.tm_mon - 1], g.tm_year, g.tm_hour,
+                                                   g.tm_min, g.tm_sec, (' ' + zone) if zone else '')
+
+
+def fmt_850(epoch, zone='GMT'):
+    g = _wall(epoch)
+    return '%s, %02d-%s-%02d %02d:%02d:%02d %s' % (_DAY[g.tm_wday], g.tm_mday, _MON[g.tm_mon - 1], g.tm_year % 100, g.tm_hour,
+                                                   g.tm_min, g.tm_sec, zone)
+
+
+def fmt_asctime(epoch):
+    g = _wall(epoch)
+    return '%s %s %2d %02d:%02d:%02d %04d' % (_DAY[g.tm_wday][:3], _MON[g.tm_mon - 1], g.tm_mday, g.tm_hour, g.tm_min, g.tm_sec,
+                                              g.tm_year)
+
+
+ZONE_TOKENS = sorted(ZONE_OFFSETS) + ['GMT', 'gmt', 'UT', 'Z', 'utc', '+0000', '+0100', '-0500', '+09:00', 'XYZ', 'MEZ', 'LOCAL', '']
+
+
+def ims_odd_values(mtime, labels=None, deltas=(-86400, -3601, -1, 0, 1, 3601, 86400)):
+    """Dates that are not IMF-fixdate: zone tokens other than GMT (the stated wall clock both as the zone's own
+    and as UTC wall clock), the two obsolete layouts on both sides of every two-digit-year pivot."""
+    t = int(mtime // 1)
+    vals = []
+    for d in deltas:
+        for z in (labels if labels is not None else ZONE_TOKENS):
+            off = ZONE_OFFSETS.get(z.upper(), 0)
+            vals.append(fmt_imf(t + d + off, z))        # the instant t+d, stated in zone z
+            if off:
+                vals.append(fmt_imf(t + d, z))          # UTC wall clock carrying the label of zone z
+        if labels is None:
+            vals += [fmt_850(t + d), fmt_850(t + d).lower(), fmt_asctime(t + d), fmt_850(t + d, 'UTC')]
+            vals += [fmt_850(t + d + ZONE_OFFSETS[z], z) for z in ('JST', 'EST', 'CET')]
+    if labels is None:
+        for y in (1900, 1949, 1950, 1968, 1969, 1970, 1975, 1976, 1977, 1999, 2000, 2020, 2026, 2049, 2050, 2068):
+            e = __import__('calendar').timegm((y, 11, 6, 8, 49, 37))
+            vals += [fmt_850(e), fmt_asctime(e)]
+            # same two digits, week day of the other century
+            vals.append(fmt_850(e).replace(_DAY[_wall(e).tm_wday], _DAY[(_wall(e).tm_wday + 3) % 7]))
+    return vals
+
+
 def ims_cases(rec, world):
     """The whole table in this shard's time zone, a reduced table in every other process time zone
     (the zone is switched between requests with time.tzset())."""
     home = _TZ[0]
     _ims_table(rec, world, ['a.txt', 'b.css', 'f0', 'f5', 'sub/inner.txt', 'big.bin', 'noext', 'missing.txt'],
                ('static', 'fb', 'dl'), 0)
+    _ims_odd_table(rec, world, ['a.txt', 'missing.txt'], ('static', 'fb'), None, 0)
     for k, tz in enumerate(TZS):
+        set_tz(tz)
+        # the zone's own abbreviations while the process runs in that zone
+        _ims_odd_table(rec, world, ['a.txt'], ('static', 'sfb'), sorted(posix_tz_abbrs(tz)) + ['GMT'], k + 1,
+                       deltas=(-3601, -1, 1, 3601))
         if tz == home:
             continue
-        set_tz(tz)
         _ims_table(rec, world, ['a.txt', 'missing.txt'], ('static', 'sfb'), k + 1, strict_only=True)
     set_tz(home)
+
+
+def _ims_odd_table(rec, world, names, route_names, labels, salt, deltas=None):
+    idx = salt
+    for name in names:
+        for rn in route_names:
+            route = world.by_name[rn][1]
+            ent = world.files.get(os.path.join(route.directory, name)) or \
+                (world.files[route.fallback] if route.fallback else [b'', 1_600_000_000])
+            values = ims_odd_values(ent[1], labels, *((deltas,) if deltas else ()))
+            for v in values:
+                for fw in ('wsgi', 'asgi'):
+                    idx += 1
+                    if idx % rec.nshards != rec.shard:
+                        continue
+                    run_case(rec, world, mk(world, rn, name, fw, 'HEAD' if idx % 9 == 0 else 'GET', [('If-Modified-Since', v)]))
+                    rec.count('exh.ims_odd')
 
 
 def _ims_table(rec, world, names, route_names, salt, strict_only=False):
@@ -952,7 +1058,7 @@ def random_headers(rng, world, mtime_hint):
         else:
             hs.append(('Range', rng.choice(RANGE_OTHER_UNITS + RANGE_FOREIGN)))
     if rng.random() < 0.2:
-        hs.append(('If-Modified-Since', rng.choice(ims_values(mtime_hint))))
+        hs.append(('If-Modified-Since', rng.choice(ims_values(mtime_hint) if rng.random() < 0.6 else ims_odd_values(mtime_hint))))
     return hs
 
 
@@ -1091,6 +1197,10 @@ def run(rec):
         'produce a self-consistent answer (400, whole file, or a 206/416 whose headers match the body)',
         'a wsgi.file_wrapper may transmit from the descriptor of an object that offers fileno(), from its current '
         'position to the end of the file (PEP 3333, optional platform-specific file handling)',
+        'If-Modified-Since values outside IMF-fixdate may be rejected (400), ignored (200) or read tolerantly, but a 304 '
+        'is only accepted when the value has a reading as a date (IMF / RFC 850 / asctime layout, zone GMT/UTC, numeric, '
+        'or one of the workload zones\' abbreviations taken as that zone; two-digit years by the 50-year rule of RFC 9110 '
+        '5.6.7 or by the stated week day) under which the file is not newer',
         'the embedding process may turn warnings into errors (every fifth request runs under simplefilter("error"))',
         'the process time zone is a configuration of the server (POSIX TZ, changed with time.tzset())',
         'library imports (.py/.pyc/.so under the interpreter, falcon or framework directories) are not counted as '
@@ -1132,7 +1242,7 @@ def run(rec):
                     ('route.none', 50), ('mon.404_noroute', 50), ('served.target', 2000), ('served.fallback', 200),
                     ('mon.body_full', 1000), ('mon.body_full_multiblock', 4), ('mon.body_partial', 800), ('mon.416', 200),
                     ('mon.304', 100), ('mon.ims_modified', 50), ('mon.range_lenient', 150), ('range.outcome.empty', 50),
-                    ('fw.wsgi', 8000), ('fw.asgi', 8000), ('exh.range', 1500), ('exh.range_big', 100), ('exh.ims', 500),
+                    ('fw.wsgi', 8000), ('fw.asgi', 8000), ('exh.range', 1500), ('exh.range_big', 100), ('exh.ims', 500), ('exh.ims_odd', 1000),
                     ('exh.targeted', 500), ('rand.requests', 400 if q else 2000), ('episode.requests', 16),
                     ('route.static', 500), ('route.dl', 500), ('route.fb', 500), ('route.fbabs', 500), ('route.nest', 200),
                     ('route.p', 500), ('route.subonly', 500), ('route.rootapp', 500), ('route.sstatic', 500),
